@@ -104,6 +104,9 @@ type Store struct {
 	Reg       *prometheus.Registry
 	Retention time.Duration
 	Broadcast [][]byte
+
+	expect map[string]*pb.Silence // GCAfterDamagedEntries: silences this store was given, by id
+	known  []string
 }
 
 // NewStore creates a store (optionally from a snapshot).
